@@ -244,7 +244,7 @@ func newWorld(env *fw.Env, b fw.Behaviour, beh behaviour) (*world, error) {
 }
 
 func (wd *world) lookup(m, t string) fw.Event {
-	ev := fw.Event{"ev": "Lookup", "m": m, "t": t, "node": "-", "eq": false, "addrOk": false}
+	ev := fw.Event{"ev": "Lookup", "m": m, "t": t, "node": "-", "fieldsEqual": false, "addrOk": false}
 	id, ok := wd.ids[t]
 	if !ok { // never registered in this behaviour: a replayed id nobody knows
 		id = genTunnelID(wd.rng, wd.beh.Cls, t)
@@ -256,7 +256,7 @@ func (wd *world) lookup(m, t string) fw.Event {
 		ev["r"] = "found"
 		ev["node"] = strings.TrimPrefix(st.SourceNodeID, "node-")
 		got, want := fieldsOf(st), wd.want[t]
-		ev["eq"] = got == want
+		ev["fieldsEqual"] = got == want
 		if got != want {
 			ev["diff"] = diff(got, want)
 		}
@@ -559,14 +559,14 @@ func selfTest(env *fw.Env, acc []*fw.Trace) []*fw.Trace {
 			if e["r"] == "found" {
 				switch id % 3 {
 				case 0:
-					ne["r"], ne["node"], ne["eq"], ne["addrOk"] = "notfound", "-", false, false
+					ne["r"], ne["node"], ne["fieldsEqual"], ne["addrOk"] = "notfound", "-", false, false
 				case 1:
 					ne["node"] = "Z"
 				default:
-					ne["eq"] = false
+					ne["fieldsEqual"] = false
 				}
 			} else {
-				ne["r"], ne["node"], ne["eq"], ne["addrOk"] = "found", "A", true, true
+				ne["r"], ne["node"], ne["fieldsEqual"], ne["addrOk"] = "found", "A", true, true
 			}
 			c.Events = append(c.Events, ne)
 		}
